@@ -6,8 +6,9 @@ run(ctx)
   1. corpus: the open known finding (a +1.0 and a -0.8 source blended into one island) is run as a
      witness; the polarity filter is run at the point excluded by `polarity_partition` (NaN / 0 peak
      flux, injected through a stubbed _fit_island) and what the real filter does is recorded.
-  2. image cases (mixed-sign isolated sources, a few same-sign blends, correlated reproducible noise;
-     rms/bkg forced (floats) or file-supplied (maps)):
+  2. image cases (mixed-sign isolated sources, same-sign blends with max_summits in {None, 1, 2}, sources against the image
+     border, blank (NaN) pixels touching the extreme pixel of sources of both signs — isolated NaN neighbours, blanked
+     blocks, blanked edge strips — correlated reproducible noise; rms/bkg forced (floats) or file-supplied (maps)):
        Spec (kind 'spec'), on the real output only
          * catalogue(-im, -bkg) == catalogue(im, bkg) with peak/int flux negated and position, shape,
            errors, flags unchanged (TOL relative; worst deviation recorded), island by island;
